@@ -1,4 +1,5 @@
 import PhysisModel.Proofs.Crc
+import PhysisModel.Properties.C10
 /-!
 # C12 — path, shader-key and file hashes equal their standard definitions
 
@@ -42,5 +43,23 @@ example : Crc32.zlibCrc32 0 [0x31,0x32,0x33,0x34,0x35,0x36,0x37,0x38,0x39] = 0xC
 /-- non-vacuity of `c12_case_insensitive`: "AbC/d" and "abc/D" -/
 example : partialHash [0x41,0x62,0x43,0x2f,0x64] = partialHash [0x61,0x62,0x63,0x2f,0x44] := by
   apply c12_case_insensitive; decide +kernel
+
+/-! ## file digests are SHA-1 (shared with C10; proofs in `Proofs/Sha1Compress.lean`, `Proofs/Sha1Pad.lean`) -/
+
+/-- buffering and padding of `src/sha1.rs` are those of FIPS 180-4, for every message length and
+any compression function (re-export of `c10_sha1_padding`) -/
+theorem c12_sha1_padding (cfm : Sha1.State → Bytes → Sha1.State)
+    (cfs : Spec.Sha1.Vars → Bytes → Spec.Sha1.Vars)
+    (hcf : ∀ st blk, blk.length = 64 → Sha1.toVars (cfm st blk) = cfs (Sha1.toVars st) blk)
+    (m : Bytes) : Sha1.sha1With cfm m = Spec.Sha1.sha1With cfs m :=
+  C10.c10_sha1_padding cfm cfs hcf m
+
+/-- `Sha1State::process` is the FIPS 180-4 compression function (re-export of `c10_sha1_compress`) -/
+theorem c12_sha1_compress (st : Sha1.State) (blk : Bytes) (h : blk.length = 64) :
+    Sha1.toVars (Sha1.process st blk) = Spec.Sha1.compress (Sha1.toVars st) blk :=
+  C10.c10_sha1_compress st blk h
+
+/-- the digest `FileInfo::new` stores is SHA-1 of the file's bytes, for every byte string -/
+theorem c12_sha1 (m : Bytes) : Sha1.sha1 m = Spec.Sha1.sha1 m := C10.c10_sha1 m
 
 end Physis.C12
